@@ -73,6 +73,9 @@ pub enum Plan {
     ErrOwn(u32),
     /// `Err(StdError::generic_err(text))`, to be converted by `From`.
     ErrStd(String),
+    /// Like `Ok`, but only for the first handler invocation; later ones (handlers run by the
+    /// sub-messages of that response) answer with an empty response.
+    OkOnce(String),
 }
 
 thread_local! {
@@ -89,7 +92,11 @@ pub fn plan_from_json(v: &Value) -> Option<Plan> {
         return None;
     }
     if let Some(t) = v.get("ok") {
-        return Some(Plan::Ok(t.as_str().expect("plan.ok must be a string").to_owned()));
+        let text = t.as_str().expect("plan.ok must be a string").to_owned();
+        if v.get("once").and_then(|o| o.as_bool()).unwrap_or(false) {
+            return Some(Plan::OkOnce(text));
+        }
+        return Some(Plan::Ok(text));
     }
     if let Some(c) = v.get("err_own") {
         return Some(Plan::ErrOwn(c.as_u64().unwrap() as u32));
@@ -206,9 +213,16 @@ where
         .unwrap_or(0);
     deps.storage.set(ck.as_bytes(), (n + 1).to_string().as_bytes());
 
-    match PLAN.with(|p| p.borrow().clone()) {
+    let plan = PLAN.with(|p| {
+        let cur = p.borrow().clone();
+        if matches!(cur, Some(Plan::OkOnce(_))) {
+            *p.borrow_mut() = None;
+        }
+        cur
+    });
+    match plan {
         None => Ok(Response::default()),
-        Some(Plan::Ok(text)) => match from_json::<Response<M>>(text.as_bytes()) {
+        Some(Plan::Ok(text)) | Some(Plan::OkOnce(text)) => match from_json::<Response<M>>(text.as_bytes()) {
             Ok(r) => Ok(r),
             Err(e) => Err(E::from_std(StdError::generic_err(format!(
                 "HARNESS: plan response does not parse: {e}"
@@ -244,7 +258,7 @@ where
         None => Err(E::from_std(StdError::generic_err(
             "HARNESS: query handler invoked without a plan",
         ))),
-        Some(Plan::Ok(text)) => from_json::<R>(text.as_bytes()).map_err(|e| {
+        Some(Plan::Ok(text)) | Some(Plan::OkOnce(text)) => from_json::<R>(text.as_bytes()).map_err(|e| {
             E::from_std(StdError::generic_err(format!(
                 "HARNESS: plan value does not parse: {e}"
             )))
